@@ -118,6 +118,11 @@ impl<'a, T> ResponseStream<'a, T> {
     pub fn verif_io(&mut self) -> &mut T {
         self.client.transport.get_mut()
     }
+
+    /// bytes of started commands still waiting in the write buffer (verification hook)
+    pub fn verif_unsent(&self) -> usize {
+        self.client.transport.write_buffer().len()
+    }
 }
 
 impl<'a, T> Stream for ResponseStream<'a, T>
